@@ -483,14 +483,9 @@ theorem lexLine_cons (cm : Bool) (st : LexSt) (c : Char) (l : Str) (h1 : ¬(c = 
   | none => rfl
   | some p =>
     obtain ⟨b, tail⟩ := p
-    obtain ⟨r, rfl⟩ := findLC_shape none l b tail hf
-    obtain ⟨r', hr'⟩ := dropFinalNl_shape r
     simp only [Option.map_some]
-    rcases hd : dropFinalNl ('/' :: '/' :: r) with ⟨cmt, nl⟩
-    rw [hd] at hr'
-    simp only [] at hr'
-    subst hr'
-    simp only [replaceAll_cons r' _ c l h1]
+    rcases dropFinalNl tail with ⟨cmt, nl⟩
+    rfl
 
 /-! ### one character of the text -/
 
